@@ -83,7 +83,7 @@ func c09TraceHex() string { return fmt.Sprintf("%x", c09TraceBytes) }
 // --- the specification's records -------------------------------------------------
 
 type c09Val struct {
-	K string `json:"k"` // abs | s | b | n | none | list
+	K string `json:"k"` // abs | s | b | n | nf (rule Value: whole number as float literal) | none | list
 	N int    `json:"n"` // tenths for k = n, 0/1 for k = b
 	S string `json:"s"`
 }
@@ -176,6 +176,11 @@ func c09YAMLValue(v c09Val) (any, error) {
 			return v.N / 10, nil
 		}
 		return float64(v.N) / 10, nil
+	case "nf": // a whole number written as a float literal: the loader yields float64
+		if v.N%10 != 0 {
+			break
+		}
+		return json.RawMessage(fmt.Sprintf("%d.0", v.N/10)), nil
 	}
 	return nil, fmt.Errorf("value %+v cannot be written into a rules file", v)
 }
